@@ -161,7 +161,11 @@ class BodyMixin:
             b = self._get_body_string()
             if not b:
                 return None
-            return json_mod.loads(b)
+            try:
+                return json_mod.loads(b)
+            except (ValueError, RecursionError):
+                # not JSON, not UTF-8, or nested beyond what the decoder takes
+                self._raise(BodyParsingError(), RequestError)
         return None
 
     @cache_in('environ[ ombott.request.post ]', read_only=True)
@@ -180,7 +184,9 @@ class BodyMixin:
         ctype = self.content_type
         if not ctype.startswith('multipart/'):
             if ctype.startswith('application/json'):
-                post.update(self.json)
+                data = self.json
+                if isinstance(data, dict):
+                    post.update(data)
             else:
                 parse_qsl(
                     touni(self._get_body_string(), 'latin1'),
